@@ -399,7 +399,7 @@ func GenLongForm(seed uint64, pool *Pool) *Plan {
 	for _, id := range core.Subset(r, svcIDs, 1, 3) {
 		svcs = append(svcs, didGoSafe(genService(r, id)))
 	}
-	aka := core.Subset(r, akaURIs, 1, 3)
+	aka := distinctURIs(core.Subset(r, akaURIs, 1, 3))
 	if len(keys) == 0 && len(svcs) == 0 {
 		svcs = append(svcs, didGoSafe(genService(r, "s1")))
 	}
